@@ -11,6 +11,8 @@ def discharge(ob, timeout_ms=20000):
     s = z3.Solver()
     s.set("timeout", timeout_ms)
     s.add(*ob.pc)
+    if ob.axioms:
+        s.add(*ob.axioms)
     s.add(z3.Not(ob.goal))
     t0 = time.time()
     r = s.check()
@@ -30,6 +32,8 @@ def discharge(ob, timeout_ms=20000):
 def smt2_of(ob):
     s = z3.Solver()
     s.add(*ob.pc)
+    if ob.axioms:
+        s.add(*ob.axioms)
     s.add(z3.Not(ob.goal))
     return s.to_smt2()
 
